@@ -150,6 +150,6 @@ class AsyncIOThreadSafeScheduler(AsyncIOScheduler):
             current_loop = asyncio.get_running_loop()
         except RuntimeError:
             # If no running event loop is found, assume we're in a different thread
-            return True
+            return False
 
         return self._loop == current_loop
